@@ -61,12 +61,15 @@ def _rp(c):
     from pyunicorn.timeseries import RecurrencePlot, RecurrenceNetwork
     if c["kind"] == "rp":
         ts = np.array(c["s"], dtype=float)
-        ts[np.array(c["mv"], dtype=bool)] = np.nan
+        if not any(c["mv"]):
+            ts = enc.represent(ts, c["case"])[0]
+        else:
+            ts[np.array(c["mv"], dtype=bool)] = np.nan
         kw = dict(metric=c["metric"], missing_values=bool(c["mvflag"]))
         if c["dim"] > 1:
             kw.update(dim=c["dim"], tau=c["tau"])
     else:
-        ts = np.array(c["pts"], dtype=float)
+        ts = enc.represent(c["pts"], c["case"])[0]
         kw = dict(metric=c["metric"])
     kw.update(_mode_kw(c))
     return {"rp": _obs_rp(RecurrencePlot, ts.copy(), kw, False),
@@ -75,8 +78,8 @@ def _rp(c):
 
 def _x(c):
     from pyunicorn.timeseries import CrossRecurrencePlot, InterSystemRecurrenceNetwork
-    x = np.array(c["x"], dtype=float)
-    y = np.array(c["y"], dtype=float)
+    x = enc.represent(c["x"], c["case"])[0]
+    y = enc.represent(c["y"], c["case"] + "y")[0]
     kw = dict(metric=c["metric"])
     o = {"crp": {"exc": "", "CR": [], "N": 0, "M": 0, "crr": 0, "lines_exc": ""},
          "isrn": {"exc": "", "adj": [], "N": 0, "Nx": 0, "Ny": 0}}
@@ -115,8 +118,8 @@ def _x(c):
 
 def _j(c):
     from pyunicorn.timeseries import JointRecurrencePlot, JointRecurrenceNetwork
-    x = np.array(c["x"], dtype=float)
-    y = np.array(c["y"], dtype=float)
+    x = enc.represent(c["x"], c["case"])[0]
+    y = enc.represent(c["y"], c["case"] + "y")[0]
     key = "threshold" if c["mode"] == "thr" else "recurrence_rate"
     kw = {key: (c["p1n"] / c["p1d"], c["p2n"] / c["p2d"]), "metric": (c["mx"], c["my"]),
           "lag": c["lag"]}
